@@ -4,6 +4,8 @@ import (
 	"fmt"
 	"time"
 
+	"github.com/jhump/grpctunnel"
+	"github.com/jhump/grpctunnel/tunnelpb"
 	"github.com/jhump/grpctunnel/verifrt"
 	"google.golang.org/grpc/codes"
 	"google.golang.org/grpc/metadata"
@@ -13,8 +15,10 @@ import (
 // on the same tunnel does.
 
 type disturber struct {
-	name string
-	wl   func() Workload
+	// focus: explore at lock granularity of these functions instead of frame granularity
+	focus []string
+	name  string
+	wl    func() Workload
 	// fcOnly: only meaningful with flow control (never-reading consumers)
 	fcOnly bool
 	// pre runs on the main thread before the disturber starts (e.g. InitiateShutdown)
@@ -51,6 +55,12 @@ func c03Disturbers() []disturber {
 			wl := StdWorkload("d", 9, "Bidi", []int{16385}, nil)
 			wl.Call.Ops = []COp{{K: "new"}, {K: "send", Size: 16385}, {K: "cancel"}, {K: "send", Size: 3}, {K: "recvall"}}
 			wl.Handler.Ops = []HOp{{K: "recvall"}, {K: "return"}}
+			return wl
+		}},
+		{name: "pre-cancelled", focus: []string{"newStream", "allocateStream", "cancelStream", "finishStream", "Send", "SendMsg", "removeStream"}, wl: func() Workload {
+			// an RPC whose context is already cancelled when it is started
+			wl := StdWorkload("d", 9, "Unary", []int{3}, []int{3})
+			wl.Call.PreCancel = true
 			return wl
 		}},
 		{name: "deadline", horizon: 2, wl: func() Workload {
@@ -121,8 +131,17 @@ func c03Scenarios(tier string) []*Scenario {
 			if d.shutdown && cfg.Reverse {
 				continue // graceful shutdown of reverse servers is C10's business
 			}
-			for _, set := range [][]int{{0}, {1}, {2}, {0, 1, 2}} {
+			for _, set := range [][]int{{0}, {1}, {2}, {0, 1, 2}, {-1}} {
 				cfg, d, set := cfg, d, set
+				// set {-1}: the second default-scheduler family, only for disturbers explored at
+				// lock granularity (bystander b1)
+				revOrder := false
+				if len(set) == 1 && set[0] == -1 {
+					if d.focus == nil {
+						continue
+					}
+					set, revOrder = []int{0}, true
+				}
 				if len(set) == 3 && !thorough && (cfg.Cap == 1 || cfg.ServerNoFC) {
 					continue
 				}
@@ -137,10 +156,17 @@ func c03Scenarios(tier string) []*Scenario {
 					ids = append(ids, c03Bystanders()[i].Call.ID)
 				}
 				dw := d.wl()
+				opt := Options{Level: "io", Bound: bound, Horizon: d.horizon}
+				if d.focus != nil {
+					if len(set) != 1 || cfg.Cap != 0 {
+						continue
+					}
+					opt = Options{Level: "focus", Focus: d.focus, Bound: bound, RevOrder: revOrder}
+				}
 				scs = append(scs, &Scenario{
-					Name: fmt.Sprintf("c03/%s/%s/by=%v", cfg, d.name, ids), Prop: "C03", Heavy: bound >= 3,
+					Name: fmt.Sprintf("c03/%s/%s/by=%v/rev=%v", cfg, d.name, ids, revOrder), Prop: "C03", Heavy: bound >= 3 || d.focus != nil,
 					Desc: fmt.Sprintf("bystander RPCs %v and a disturber %q share a %s tunnel; all relative timings of their frames with <= %d deviations; bystanders must complete exactly as alone and the tunnel must stay up", ids, d.name, cfg, bound),
-					Opt:  Options{Level: "io", Bound: bound, Horizon: d.horizon},
+					Opt:  opt,
 					Run: func(w *World) {
 						t := w.OpenTunnel(cfg)
 						if t.StartErr != nil {
@@ -209,6 +235,81 @@ func c03Scenarios(tier string) []*Scenario {
 				})
 			}
 		}
+	}
+	// a single-threaded raw peer on a carrier of capacity 2: it opens a bystander stream, bursts
+	// more rejected new-streams than the carrier can hold, finishes the bystander's requests and
+	// only then starts to read. The rejections must not stop the server from reading.
+	for _, nRej := range []int{3, 8} {
+		nRej := nRej
+		b := 1
+		if thorough {
+			b = 2
+		}
+		scs = append(scs, &Scenario{
+			Name: fmt.Sprintf("c03/raw-burst-rejections/%d", nRej), Prop: "C03",
+			Desc: fmt.Sprintf("scripted single-threaded client on a carrier of capacity 2: bystander new_stream + message, %d new_streams for an unknown method, the bystander's second message and half-close, and only then does it read; <= %d deviations", nRej, b),
+			Opt:  Options{Level: "io", Bound: b},
+			Run: func(w *World) {
+				h := grpctunnel.NewTunnelServiceHandler(grpctunnel.TunnelServiceHandlerOptions{})
+				h.RegisterService(&TestSvcDesc, &TestServer{W: w, Name: "fwd"})
+				n := NewNet(w, "T")
+				n.Cap = 2
+				tunnelpb.RegisterTunnelServiceServer(n, h.Service())
+				w.Scripts["by"] = &HandlerScript{ID: "by", Tag: 1, Ops: []HOp{{K: "recvall"}, {K: "send", Size: 3}, {K: "return"}}}
+				w.Vals["rawclient:hold-reader"] = true
+				rc, err := w.OpenRawClient(n, true)
+				if err != nil {
+					return
+				}
+				w.Vals["rc"] = rc
+				peer := w.Go("a-rawclient", true, func() {
+					m := msgBytes(1, 0, 0, 3)
+					_ = rc.Send(fNew(1, "/verif.T/ClientStream", 1, 65536, "by"))
+					_ = rc.Send(fReq(1, uint32(len(m)), m))
+					for i := 0; i < nRej; i++ {
+						_ = rc.Send(fNew(int64(2+i), "/verif.T/Nope", 1, 65536, ""))
+					}
+					_ = rc.Send(fReq(1, uint32(len(m)), m))
+					_ = rc.Send(fHalf(1))
+					delete(w.Vals, "rawclient:hold-reader")
+					w.WaitUntil("raw:settled", func() bool {
+						if rc.Done {
+							return true
+						}
+						for id := int64(1); id < int64(2+nRej); id++ {
+							if len(rc.CloseOf(id)) == 0 {
+								return false
+							}
+						}
+						return true
+					})
+					rc.Finish()
+				})
+				w.Join(peer)
+				w.Drain()
+			},
+			Check: func(w *World, x *Exec) []Violation {
+				vs := NoHang(x, "C03")
+				if x.Hang {
+					vs[0].Sig = "indep:raw-burst-rejections:" + vs[0].Sig
+					return vs
+				}
+				rc, _ := w.Vals["rc"].(*RawClient)
+				if rc == nil {
+					return vs
+				}
+				if cl := rc.CloseOf(1); len(cl) != 1 || codes.Code(cl[0].GetStatus().GetCode()) != codes.OK {
+					vs = append(vs, Violation{Prop: "C03", Rule: "bystander-unaffected", Sig: "indep:raw-burst-rejections:bystander-failed", Detail: fmt.Sprintf("bystander close frames: %v\n%s", cl, w.Outcome())})
+				}
+				for i := 0; i < nRej; i++ {
+					if cl := rc.CloseOf(int64(2 + i)); len(cl) != 1 || codes.Code(cl[0].GetStatus().GetCode()) != codes.Unimplemented {
+						vs = append(vs, Violation{Prop: "C03", Rule: "rejections-delivered", Sig: "indep:raw-burst-rejections:rejection-missing", Detail: fmt.Sprintf("stream %d: %v", 2+i, cl)})
+						break
+					}
+				}
+				return vs
+			},
+		})
 	}
 	return scs
 }
